@@ -1,9 +1,10 @@
 """Layer B for C09 (bounded stand-in): random call histories, repetition, threads; deep snapshots of constants and arguments."""
-import random, math, copy, datetime, threading
+import random, math, copy, datetime, threading, os, sys, json, subprocess, pickle, base64
 import numpy as np
 
 RULES = {
     'C09.B.histories': 'sequences of 1..50 calls drawn from the public API (convert, geodesy, statistics, survey, transform, constants operators) with random valid arguments, with and without covariance input, both directions of every transformation: every call repeated later in the same history gives a bit-identical result; a deep snapshot of every module-level constant is unchanged afterwards; every mutable argument (list, ndarray, Transformation) is unchanged after the call',
+    'C09.B.fresh_process_order': 'every history is re-run in a fresh interpreter in REVERSED order (a different set of earlier calls for each call): the first result of every distinct call has the same repr, bit for bit, in both processes - so no result depends on which other library calls were made before it',
     'C09.B.threads': 'the same sequences split across 2..8 threads: every result equals the single-thread result bit for bit and the constants are unchanged',
 }
 
@@ -41,13 +42,14 @@ def make_calls(rng, C, cv, gd, st, sv, tr):
     sd7 = [v for v in vars(C).values() if isinstance(v, C.Transformation) and isinstance(v.tf_sd, C.TransformationSD) and v.tf_sd.sd_rx is not None and v.tf_sd.sd_tx is not None]
     sd14 = [v for v in dated if isinstance(v.tf_sd, C.TransformationSD) and v.tf_sd.sd_d_tx is not None and v.tf_sd.sd_tx is not None]
     calls = []
+    eps = [datetime.date(rng.randint(1990, 2040), rng.randint(1, 12), rng.randint(1, 28)) for _ in range(3)]     # few epochs per history: different sets meet at one epoch
     for _ in range(60):
         lat, lon = rng.uniform(-79, 83), rng.uniform(-179, 179)
         e = rng.choice([C.grs80, C.ans, C.wgs84, C.intl24])
         X = [rng.uniform(-6e6, 6e6) for _ in range(3)]
         G = np.array([[rng.gauss(0, 1) for _ in range(3)] for _ in range(3)])
         V = G @ G.T * 1e-4
-        ep = datetime.date(rng.randint(1990, 2040), rng.randint(1, 12), rng.randint(1, 28))
+        ep = rng.choice(eps)
         k = rng.randint(0, 17)
         if k == 0:
             calls.append(('geo2grid', cv.geo2grid, lambda lat=lat, lon=lon, e=e: (lat, lon, 0, e)))
@@ -94,20 +96,72 @@ def make_calls(rng, C, cv, gd, st, sv, tr):
     return calls
 
 
+def build_history(rng, mods):
+    calls = make_calls(rng, *mods)
+    length = rng.randint(1, 50)
+    hist = [rng.choice(calls) for _ in range(length)]
+    hist += [rng.choice(hist) for _ in range(rng.randint(0, 10))]          # repeated identical calls
+    return hist
+
+
+def rep(res):
+    if isinstance(res, np.ndarray):
+        return 'arr' + repr(res.tolist())
+    if isinstance(res, (tuple, list)):
+        return '(' + ','.join(rep(x) for x in res) + ')'
+    if hasattr(res, '__dict__') and not isinstance(res, type):
+        return type(res).__name__ + rep(sorted((k, rep(v)) for k, v in vars(res).items()))
+    return repr(res)
+
+
+def child_main():
+    """fresh interpreter: rebuild the history from the RNG state, run it in reversed order, print the first result of every distinct call"""
+    import warnings
+    warnings.simplefilter('ignore')
+    state = pickle.loads(base64.b64decode(sys.stdin.read()))
+    import geodepy.constants as C, geodepy.convert as cv, geodepy.geodesy as gd, geodepy.statistics as st, geodepy.survey as sv, geodepy.transform as tr
+    rng = random.Random()
+    rng.setstate(state)
+    hist = build_history(rng, (C, cv, gd, st, sv, tr))
+    out = {}
+    for idx in reversed(range(len(hist))):
+        label, fn, mk = hist[idx]
+        key = '%s#%d' % (label, [i for i, h in enumerate(hist) if h[2] is mk][0])
+        if key in out:
+            continue
+        try:
+            res = fn(*mk())
+        except Exception as ex:
+            res = ('EXC', type(ex).__name__, str(ex))
+        out[key] = rep(res)
+    print('RESULT ' + json.dumps(out))
+
+
+def fresh_reversed(state):
+    repo = os.environ.get('VERIF_REPO', '/repo')
+    here = os.path.dirname(os.path.dirname(os.path.abspath(__file__)))
+    env = dict(os.environ, PYTHONPATH=repo + os.pathsep + here, PYTHONDONTWRITEBYTECODE='1')
+    r = subprocess.run([sys.executable, '-c', 'from bounded import C09; C09.child_main()'], input=base64.b64encode(pickle.dumps(state)).decode(), capture_output=True, text=True, env=env, timeout=600)
+    for l in r.stdout.split('\n'):
+        if l.startswith('RESULT '):
+            return json.loads(l[7:])
+    raise RuntimeError('fresh-process child failed: %s' % (r.stderr[-800:],))
+
+
 def work(item):
     import warnings
     warnings.simplefilter('ignore')
     import geodepy.constants as C, geodepy.convert as cv, geodepy.geodesy as gd, geodepy.statistics as st, geodepy.survey as sv, geodepy.transform as tr
     rng = random.Random(item['seed'])
+    r3 = dict(check='C09.B.fresh_process_order', function='public API', n=0, keys=set(), failures=[], samples=[])
     r1 = dict(check='C09.B.histories', function='public API', n=0, keys=set(), failures=[], samples=[])
     r2 = dict(check='C09.B.threads', function='public API', n=0, keys=set(), failures=[], samples=[])
     base = snap_constants(C)
     for h in range(item['n']):
-        calls = make_calls(rng, C, cv, gd, st, sv, tr)
-        length = rng.randint(1, 50)
-        hist = [rng.choice(calls) for _ in range(length)]
-        hist += [rng.choice(hist) for _ in range(rng.randint(0, 10))]          # repeated identical calls
+        state0 = rng.getstate()
+        hist = build_history(rng, (C, cv, gd, st, sv, tr))
         first = {}
+        first_rep = {}
         for idx, (label, fn, mk) in enumerate(hist):
             args = mk()
             keep = copy.deepcopy([a for a in args if isinstance(a, (list, np.ndarray))])
@@ -120,16 +174,25 @@ def work(item):
             r1['keys'].add((item['seed'], h, idx))
             now = [a for a in args if isinstance(a, (list, np.ndarray))]
             if not all(same(x, y) for x, y in zip(keep, now)):
-                r1['failures'].append(dict(input=dict(call=label, history_index=idx), what='a caller-owned list/array argument was modified'))
+                r1['failures'].append(dict(input=dict(call=label, history_index=idx, seed=item['seed'], history=h), what='a caller-owned list/array argument was modified'))
             for a, d0, s0 in tsnap:
                 if not same(dict(vars(a)), d0) or (s0 is not None and dict(vars(a.tf_sd)) != s0):
-                    r1['failures'].append(dict(input=dict(call=label, history_index=idx), what='a Transformation argument (or its uncertainty object) was modified'))
+                    r1['failures'].append(dict(input=dict(call=label, history_index=idx, seed=item['seed'], history=h), what='a Transformation argument (or its uncertainty object) was modified'))
             key = (label, id(mk))
             if key in first:
                 if not same(first[key], res):
-                    r1['failures'].append(dict(input=dict(call=label, history_index=idx, history_length=len(hist)), what='repeated identical call returned a different result', first=repr(first[key])[:300], later=repr(res)[:300]))
+                    r1['failures'].append(dict(input=dict(call=label, history_index=idx, history_length=len(hist), seed=item['seed'], history=h), what='repeated identical call returned a different result', first=repr(first[key])[:300], later=repr(res)[:300]))
             else:
                 first[key] = res
+                first_rep['%s#%d' % (label, [i for i, h_ in enumerate(hist) if h_[2] is mk][0])] = rep(res)
+        other = fresh_reversed(state0)
+        for k_, v_ in first_rep.items():
+            r3['n'] += 1
+            r3['keys'].add((item['seed'], h, k_))
+            if other.get(k_) != v_:
+                r3['failures'].append(dict(input=dict(call=k_, seed=item['seed'], history=h, history_labels=[l for l, _, _ in hist][:50]),
+                                           what='first result of the call in this history differs from its result in a fresh process that ran the history in reversed order',
+                                           here=v_[:300], fresh_reversed=str(other.get(k_))[:300]))
         if snap_constants(C) != base:
             after = snap_constants(C)
             ch = [k for k in base if base[k] != after.get(k)]
@@ -169,8 +232,21 @@ def work(item):
             r2['failures'].append(dict(input=dict(threads=nthreads), what='module-level constants changed under threads'))
     r1['samples'] = [dict(history=['conform14+vcv', 'conform14+vcv', 'mga94_to_mga2020'])]
     r2['samples'] = [dict(threads=4)]
-    return [r1, r2]
+    r3['samples'] = [dict(history_length=len(hist), distinct_calls=len(first_rep))]
+    return [r1, r2, r3]
 
 
 def replay_case(check, inp):
-    return dict(note='histories are regenerated from the seed: re-run ./check C09', input=inp)
+    """histories are regenerated from the recorded seed and re-run on the current tree"""
+    if isinstance(inp, dict) and 'seed' in inp and 'history' in inp:
+        repo = os.environ.get('VERIF_REPO', '/repo')
+        if repo not in sys.path:
+            sys.path.insert(0, repo)
+        res = work(dict(seed=inp['seed'], n=int(inp['history']) + 1))
+        for r in res:
+            if r['check'] == check:
+                f = [x for x in r['failures'] if x.get('input', {}).get('history', inp['history']) == inp['history']]
+                if f:
+                    return f[0]
+        return None
+    return dict(note='this record carries no seed: re-run ./check C09', input=inp)
